@@ -59,7 +59,7 @@ pub const FEN_SPLICES: [usize; 2] = [1_000, 50_000];
 pub const PARSE_PMOVE_MAXLEN: [usize; 2] = [4, 5];
 pub const PARSE_SMALL_MAXLEN: usize = 3;
 pub const PARSE_MOVE_MUTATIONS: [usize; 2] = [20_000, 600_000];
-pub const PARSE_PGN_GAMES: [usize; 2] = [12, 600];
+pub const PARSE_PGN_GAMES: [usize; 2] = [12, 100];
 pub const PARSE_PGN_MUTATIONS_PER_TEXT: [usize; 2] = [8, 12];
 /// game group: random sessions, their length, exhaustive sequence length.
 pub const GAME_RANDOM_SESSIONS: [usize; 2] = [250, 8_000];
